@@ -43,14 +43,14 @@ RULES = {
 
 # findings of one property that are *also* reported under another (same defect, two properties)
 ALSO = {
-    "C18": {"C15": ("C15.k",)},
+    "C18": {"C15": ("C15.k", "C15.m")},
     "C20": {"C01": ("C01.k",)},
     # reference lists are attribute values too: the order clauses of C08 are clauses of C02 ("never reorder matched values")
     "C02": {"C08": ("C08.a", "C08.b", "C08.d", "C08.e"), "C01": ("C01.e", "C01.j")},
     # "matching object of the right type": the conformance test textx_isinstance is part of C07's selector
     "C07": {"C01": ("C01.i",), "C03": ("C03.c", "C03.d", "C03.h"), "C16": ("C16.a",), "C34": ("C34.h",), "C05": ("C05.h",)},     # C34.h: a reference bound to a builtin (a plain object) must not break the round when tool support is on
     # C14: "__init__ ... runs before any object processor" is the ordering clause C13.a; instrumentation/storage clauses of C15
-    "C14": {"C01": ("C01.j",), "C13": ("C13.a",), "C15": ("C15.h", "C15.c", "C15.d", "C15.e", "C15.f", "C15.k")},
+    "C14": {"C01": ("C01.j",), "C13": ("C13.a",), "C15": ("C15.h", "C15.c", "C15.d", "C15.e", "C15.f", "C15.k", "C15.m")},
     "C15": {"C16": ("C16.a",), "C14": ("C14.a", "C14.f", "C14.e", "C14.i", "C14.j", "C14.c", "C14.k"), "C18": ("C18.a", "C18.g", "C18.c", "C18.d", "C18.j")},
     # C09 "a Postponed result is never bound/stored": the builtins fallback clause of C07.b
     "C09": {"C07": ("C07.b", "C07.e"), "C08": ("C08.a", "C08.b", "C08.d"), "C05": ("C05.g",), "C11": ("C11.h",), "C18": ("C18.k",)},   # "the result does not depend on the order taken": positional storage of list references
@@ -80,7 +80,7 @@ ALSO = {
     # C13 'the object processor registered for a rule': a registration replaces the previous table, never the built-in one (C04.e)
     "C13": {"C04": ("C04.e",), "C01": ("C01.k",), "C18": ("C18.k",)},
     # C16 'each load ... equal to a fresh process state, also after failing loads': instrumentation / storage / repository cleanup clauses
-    "C16": {"C01": ("C01.d", "C01.h",), "C15": ("C15.c", "C15.d", "C15.h", "C15.j", "C15.k"), "C14": ("C14.a", "C14.f", "C14.i", "C14.j", "C14.c", "C14.k")},
+    "C16": {"C01": ("C01.d", "C01.h",), "C15": ("C15.c", "C15.d", "C15.h", "C15.j", "C15.k", "C15.m"), "C14": ("C14.a", "C14.f", "C14.i", "C14.j", "C14.c", "C14.k")},
     # C10 'ending in an object of the target type': the conformance test textx_isinstance
     "C10": {"C03": ("C03.c", "C03.h",), "C01": ("C01.i",), "C14": ("C14.m", "C14.p"), "C05": ("C05.h",)},
     # the type a (possibly qualified) reference names is kept over repeated assignments
